@@ -137,6 +137,27 @@ def check_refusals(acc: Acc, tier: str, seed: int) -> None:
             acc.violate("declares-vs-does", {"term": type(term).__name__}, {"term": type(term).__name__, "params": [], "height": 1.0, "y": 0.25},
                         "monotonic terms invert, the others refuse", [bool(term.is_monotonic()), str(got)],
                         f"{type(term).__name__} declares is_monotonic()={term.is_monotonic()} but tsukamoto gives {got}")
+    # degenerate instances of the monotonic classes (zero slope, zero width; parameters as Python numbers and as numpy
+    # floats): what the INSTANCE declares must match what it does - monotonic: an answer without raising; not: a refusal
+    for cls, p in (("Sigmoid", [0.5, 0.0]), ("Sigmoid", [0.5, -0.0]), ("Ramp", [0.5, 0.5]), ("Ramp", [0, 0]), ("SShape", [0.5, 0.5]),
+                   ("ZShape", [0.5, 0.5]), ("Concave", [0.5, 0.5]), ("Arc", [0.5, 0.5])):
+        for as_numpy in (False, True):
+            term = getattr(fl, cls)("t", *[np.float64(v) if as_numpy else v for v in p])
+            acc.case((cls, tuple(p), as_numpy, "degenerate"), nontrivial=True)
+            acc.cls("refusals")
+            for y in (0.5, np.array([0.25, 0.5])):
+                try:
+                    got = term.tsukamoto(y)
+                    refused = False
+                except RuntimeError:
+                    got, refused = "RuntimeError", True
+                except Exception as ex:  # noqa: BLE001
+                    got, refused = f"{type(ex).__name__}: {ex}", None
+                if refused is None or bool(term.is_monotonic()) == refused:
+                    acc.violate("declares-vs-does", {"term": cls, "degenerate": True}, {"term": cls, "params": p, "height": 1.0, "y": 0.5},
+                                "monotonic terms answer, the others refuse", [bool(term.is_monotonic()), str(got)],
+                                f"{cls}{p} ({'numpy' if as_numpy else 'Python'} numbers) declares is_monotonic()={term.is_monotonic()} but tsukamoto gives {got}")
+                    break
     # Linear / Function (registered terms that need an engine)
     for term in (fl.Linear("l", [1.0]), fl.Function("f", "x")):
         acc.case((type(term).__name__,), nontrivial=True)
